@@ -171,6 +171,10 @@ impl PriceLevel {
     ) -> MatchResult {
         let mut result = MatchResult::new(taker_order_id, incoming_quantity);
         let mut remaining = incoming_quantity;
+        // Orders that can give nothing in this call (nothing displayed and nothing replenished).
+        // They are kept out of the queue until the call is over, otherwise they would be popped
+        // and re-queued forever.
+        let mut set_aside: Vec<Arc<OrderType<()>>> = Vec::new();
 
         while remaining > 0 {
             if let Some(order_arc) = self.orders.pop() {
@@ -215,7 +219,11 @@ impl PriceLevel {
                             .fetch_add(hidden_reduced, Ordering::AcqRel);
                     }
 
-                    self.orders.push(Arc::new(updated));
+                    if consumed == 0 && hidden_reduced == 0 {
+                        set_aside.push(Arc::new(updated));
+                    } else {
+                        self.orders.push(Arc::new(updated));
+                    }
                 } else {
                     self.order_count.fetch_sub(1, Ordering::AcqRel);
                     match &*order_arc {
@@ -245,6 +253,10 @@ impl PriceLevel {
             } else {
                 break;
             }
+        }
+
+        for order in set_aside {
+            self.orders.push(order);
         }
 
         result.remaining_quantity = remaining;
